@@ -122,6 +122,12 @@ def split_class(groups):
         tag = "-" + f.replace("disable_", "no_")
         if all((tag + "-") in (n + "-") for n in minority) and not any((tag + "-") in (n + "-") for n in groups[0]):
             return "flag:" + f
+    # a pipeline+level shared by every deviating configuration and absent from the majority group
+    def pl(n):
+        return "-".join(n.split("-")[:2])
+    pls = {pl(n) for n in minority}
+    if len(pls) == 1 and not any(pl(n) in pls for n in groups[0]):
+        return "level:" + sorted(pls)[0]
     return groups[1][0]
 
 
